@@ -125,3 +125,334 @@ Qed.
 (** * repeat *)
 Lemma nth_repeat_same {A} (x : A) k s : nth s (repeat x k) x = x.
 Proof. revert s. induction k as [|k IH]; intros [|s]; cbn; auto. Qed.
+
+Lemma nth_repeat_in {A} (x d : A) k s : s < k -> nth s (repeat x k) d = x.
+Proof. revert s. induction k as [|k IH]; intros [|s] H; cbn; try lia; auto. apply IH. lia. Qed.
+
+(** * Layout of the three games: the transition list of gen_X is the concatenation of its groups,
+      each a nested-loop list, followed by the losing and the winning state *)
+Section Layout.
+Context {T : Type} (K : ops T).
+Variables (L W : nat) (moves : nat -> nat -> nat) (rewards : nat -> nat -> T)
+          (loose : nat -> nat -> nat) (ptb prb plb : T).
+Notation n := (L * W).
+
+Definition tail_of (total : nat) : list (list (trans (T:=T))) :=
+  [[pb (one K) (n * total)]; [pb (one K) (n * total + 1)]].
+
+Definition cells_A_with (lr : (nat -> nat -> nat) -> nat -> nat -> nat -> nat -> list (trans (T:=T))) :=
+  [player_two_cell K W moves (1 * n) (2 * n);
+   player_one_down_cell K L W (3 * n) (Some (n * 4 + 1));
+   lr moves (3 * n) (3 * n);
+   prob_tile_break_cell K W ptb loose 0 (n * 4)].
+Definition cells_A := cells_A_with (player_one_left_right_cell K W).
+Definition cells_A_orig := cells_A_with (player_one_left_right_cell_orig K W).
+
+Definition cells_B :=
+  [player_two_cell K W moves (1 * n) (2 * n);
+   player_one_down_cell K L W (4 * n) None;
+   player_one_left_right_cell K W moves (5 * n) (6 * n);
+   prob_tile_break_cell K W ptb loose 0 (n * 7);
+   prob_robot_down_break_cell K L W prb (3 * n) (n * 7 + 1);
+   prob_robot_left_break_cell K W prb (3 * n);
+   prob_robot_right_break_cell K W prb (3 * n)].
+
+Definition cells_C :=
+  [player_two_cell K W moves (8 * n) (9 * n);
+   player_one_down_cell K L W (5 * n) None;
+   player_one_left_right_cell K W moves (6 * n) (7 * n);
+   player_one_down_left_right_cell K W moves (5 * n) (6 * n) (7 * n);
+   prob_tile_break_cell K W ptb loose 0 (n * 10);
+   prob_robot_down_break_cell K L W prb (4 * n) (n * 10 + 1);
+   prob_robot_left_break_cell K W prb (4 * n);
+   prob_robot_right_break_cell K W prb (4 * n);
+   prob_light_break_cell K W plb (1 * n) (3 * n);
+   prob_light_break_cell K W plb (2 * n) (3 * n)].
+
+Lemma gen_A_trans :
+  g_trans (gen_A K L W moves rewards loose ptb) = chain (map (grid L W) cells_A) (tail_of 4).
+Proof. reflexivity. Qed.
+Lemma gen_A_orig_trans :
+  g_trans (gen_A_orig K L W moves rewards loose ptb) = chain (map (grid L W) cells_A_orig) (tail_of 4).
+Proof. reflexivity. Qed.
+Lemma gen_B_trans :
+  g_trans (gen_B K L W moves rewards loose ptb prb) = chain (map (grid L W) cells_B) (tail_of 7).
+Proof. reflexivity. Qed.
+Lemma gen_C_trans :
+  g_trans (gen_C K L W moves rewards loose ptb prb plb) = chain (map (grid L W) cells_C) (tail_of 10).
+Proof. reflexivity. Qed.
+
+Lemma gen_A_rewards : g_rewards (gen_A K L W moves rewards loose ptb) = my_rewards K L W rewards 4.
+Proof. reflexivity. Qed.
+Lemma gen_B_rewards : g_rewards (gen_B K L W moves rewards loose ptb prb) = my_rewards K L W rewards 7.
+Proof. reflexivity. Qed.
+Lemma gen_C_rewards : g_rewards (gen_C K L W moves rewards loose ptb prb plb) = my_rewards K L W rewards 10.
+Proof. reflexivity. Qed.
+Lemma gen_A_players : g_players (gen_A K L W moves rewards loose ptb) = my_players L W 2 1.
+Proof. reflexivity. Qed.
+Lemma gen_B_players : g_players (gen_B K L W moves rewards loose ptb prb) = my_players L W 2 4.
+Proof. reflexivity. Qed.
+Lemma gen_C_players : g_players (gen_C K L W moves rewards loose ptb prb plb) = my_players L W 3 6.
+Proof. reflexivity. Qed.
+Lemma gen_A_finals : g_finals (gen_A K L W moves rewards loose ptb) = [n * 4 + 1].
+Proof. reflexivity. Qed.
+Lemma gen_B_finals : g_finals (gen_B K L W moves rewards loose ptb prb) = [n * 7 + 1].
+Proof. reflexivity. Qed.
+Lemma gen_C_finals : g_finals (gen_C K L W moves rewards loose ptb prb plb) = [n * 10 + 1].
+Proof. reflexivity. Qed.
+
+(** rewards and owners by index *)
+Lemma my_rewards_length total : length (my_rewards K L W rewards total) = n + n * (total - 1) + 2.
+Proof. unfold my_rewards. rewrite !app_length, grid_length, repeat_length. cbn [length]. lia. Qed.
+
+Lemma my_rewards_cell total i j : i < L -> j < W ->
+  nth (i * W + j) (my_rewards K L W rewards total) (zero K) = rewards i j.
+Proof.
+  intros Hi Hj. unfold my_rewards. rewrite app_nth1 by (rewrite grid_length; apply cell_lt; assumption).
+  apply nth_grid; assumption.
+Qed.
+
+Lemma my_rewards_rest total s : n <= s -> nth s (my_rewards K L W rewards total) (zero K) = zero K.
+Proof.
+  intros Hs. unfold my_rewards. rewrite app_nth2 by (rewrite grid_length; assumption).
+  change [zero K; zero K] with (repeat (zero K) 2). rewrite <- repeat_app. apply nth_repeat_same.
+Qed.
+
+Lemma my_players_length a b : length (my_players L W a b) = n + n * a + n * b + 2.
+Proof. unfold my_players. rewrite !app_length, !repeat_length. cbn [length]. lia. Qed.
+
+Lemma my_players_nth a b s :
+  nth s (my_players L W a b) PR =
+  if s <? n then P2 else if s <? n + n * a then P1 else PR.
+Proof.
+  unfold my_players. destruct (Nat.ltb_spec s n) as [H|H].
+  - rewrite app_nth1 by (rewrite repeat_length; assumption).
+    apply nth_repeat_in. assumption.
+  - rewrite app_nth2 by (rewrite repeat_length; assumption). rewrite repeat_length.
+    destruct (Nat.ltb_spec s (n + n * a)) as [H2|H2].
+    + rewrite app_nth1 by (rewrite repeat_length; lia). apply nth_repeat_in. lia.
+    + rewrite app_nth2 by (rewrite repeat_length; lia). rewrite repeat_length.
+      change [PR; PR] with (repeat PR 2). rewrite <- repeat_app. apply nth_repeat_same.
+Qed.
+
+End Layout.
+
+(** * What the solver's validation needs (generic in the number operations) *)
+Section Validation.
+Context {T : Type} (K : ops T).
+Notation tr := (trans (T:=T)).
+
+(* every transition list is non-empty and every target is a state *)
+Definition rows_ok (n : nat) (tl : list (list tr)) : Prop :=
+  Forall (fun row => row <> [] /\ Forall (fun t => dst t < n) row) tl.
+
+Lemma existsb_range_false n (row : list tr) :
+  Forall (fun t => dst t < n) row -> existsb (fun t => n <=? dst t) row = false.
+Proof.
+  induction 1 as [|t r Ht _ IH]; cbn [existsb]; [reflexivity|].
+  rewrite IH, orb_false_r. apply Nat.leb_gt. assumption.
+Qed.
+
+Lemma init_states_from_ok n finals (l : list (kind * list tr * T)) : forall idx,
+  Forall (fun x => snd (fst x) <> [] /\ Forall (fun t => dst t < n) (snd (fst x))) l ->
+  exists sl, init_states_from K n idx finals l = Ok sl /\ length sl = length l.
+Proof.
+  induction l as [|[[k row] r] l IH]; intros idx HF.
+  - exists []. split; reflexivity.
+  - inversion HF as [|? ? [Hne Hrange] HF']; subst. cbn [fst snd] in Hne, Hrange.
+    destruct (IH (S idx) HF') as (rest & E & Hlen).
+    cbn [init_states_from]. destruct row as [|t row]; [contradiction|].
+    rewrite (existsb_range_false n (t :: row) Hrange). rewrite E. cbn [bind].
+    eexists. split; [reflexivity|]. cbn [length]. rewrite Hlen. reflexivity.
+Qed.
+
+Lemma init_states_ok (g : game (T:=T)) :
+  length (g_trans g) = length (g_players g) -> length (g_rewards g) = length (g_players g) ->
+  rows_ok (length (g_players g)) (g_trans g) ->
+  exists sl, init_states K g = Ok sl /\ length sl = length (g_players g).
+Proof.
+  intros H1 H2 HR. unfold init_states.
+  destruct (init_states_from_ok (length (g_players g)) (g_finals g)
+              (combine (combine (g_players g) (g_trans g)) (g_rewards g)) 0) as (sl & E & Hlen).
+  - apply Forall_forall. intros [[k row] r] Hin. cbn [fst snd].
+    apply in_combine_l in Hin. apply in_combine_r in Hin.
+    unfold rows_ok in HR. rewrite Forall_forall in HR. apply HR. assumption.
+  - rewrite E. cbn [bind]. rewrite Hlen, !combine_length, H1, H2, !Nat.min_id, Nat.eqb_refl.
+    exists sl. split; [reflexivity|]. rewrite Hlen, !combine_length, H1, H2, !Nat.min_id. reflexivity.
+Qed.
+
+Lemma existsb_false_Forall {A} (p : A -> bool) l : Forall (fun x => p x = false) l -> existsb p l = false.
+Proof. induction 1 as [|x r Hx _ IH]; cbn [existsb]; [reflexivity|]. rewrite Hx, IH. reflexivity. Qed.
+
+Lemma check_game_ok (g : game (T:=T)) f :
+  length (g_trans g) = length (g_players g) -> length (g_rewards g) = length (g_players g) ->
+  0 < length (g_players g) ->
+  Forall (fun r => ltb K r (zero K) = false) (g_rewards g) ->
+  g_finals g = [f] -> f < length (g_players g) ->
+  check_game K g = Ok tt.
+Proof.
+  intros H1 H2 Hpos Hrw Hf Hfr. unfold check_game.
+  rewrite H1, H2, Nat.eqb_refl. cbn [negb].
+  destruct (g_rewards g) as [|r0 rs] eqn:E; [cbn in H2; lia|].
+  rewrite (existsb_false_Forall _ _ Hrw). rewrite Hf. cbn [existsb].
+  rewrite orb_false_r. destruct (Nat.leb_spec (length (g_players g)) f); [lia|reflexivity].
+Qed.
+
+End Validation.
+
+(** * Every cell of every builder is a non-empty list of transitions into the state range *)
+Section Cells.
+Context {T : Type} (K : ops T).
+Variables (L W : nat).
+Notation n := (L * W).
+Notation tr := (trans (T:=T)).
+
+Definition cell_ok (N : nat) (row : list tr) : Prop := row <> [] /\ Forall (fun t => dst t < N) row.
+
+Lemma py_pred_mod_lt j : 0 < W -> py_pred_mod j W < W.
+Proof. intros HW. destruct j as [|j]; cbn [py_pred_mod]; [lia|]. apply Nat.mod_upper_bound. lia. Qed.
+
+Lemma py_pred_mod_spec j : j < W -> py_pred_mod j W = (j + W - 1) mod W.
+Proof.
+  intros Hj. destruct j as [|j]; cbn [py_pred_mod].
+  - replace (0 + W - 1) with (W - 1) by lia. rewrite Nat.mod_small by lia. reflexivity.
+  - replace (S j + W - 1) with (j + 1 * W) by lia. rewrite Nat.mod_add by lia. reflexivity.
+Qed.
+
+Ltac cell_facts i j :=
+  pose proof (cell_lt L W i j);
+  try (pose proof (cell_lt L W (i + 1) j));
+  try (pose proof (cell_lt L W i (W - 1)));
+  try (pose proof (cell_lt L W i 0));
+  try (pose proof (cell_lt L W i (j - 1)));
+  try (pose proof (cell_lt L W i (j + 1))).
+Ltac row_ok := split; [discriminate | repeat constructor; cbn [dst pl pb fst snd]; lia].
+
+Lemma player_two_cell_ok N moves o1 o2 i j :
+  o1 + n <= N -> o2 + n <= N -> i < L -> j < W -> cell_ok N (player_two_cell K W moves o1 o2 i j).
+Proof.
+  intros H1 H2 Hi Hj. cell_facts i j. unfold player_two_cell. destruct (negb _); row_ok.
+Qed.
+
+Lemma player_one_down_cell_ok N o ws i j :
+  o + n <= N -> (forall w, ws = Some w -> w < N) -> i < L -> j < W ->
+  cell_ok N (player_one_down_cell K L W o ws i j).
+Proof.
+  intros H1 H2 Hi Hj. cell_facts i j. unfold player_one_down_cell.
+  destruct (not_ws ws); [row_ok|]. destruct (Nat.ltb_spec i (L - 1)); [row_ok|].
+  destruct ws as [w|]; [specialize (H2 w eq_refl)|]; row_ok.
+Qed.
+
+Lemma player_one_left_right_cell_ok N moves ol or_ i j :
+  ol + n <= N -> or_ + n <= N -> 0 < N -> moves i j <= 3 -> i < L -> j < W ->
+  cell_ok N (player_one_left_right_cell K W moves ol or_ i j).
+Proof.
+  intros H1 H2 H0 Hm Hi Hj. cell_facts i j.
+  pose proof (cell_lt L W i (py_pred_mod j W)). pose proof (py_pred_mod_lt j).
+  pose proof (cell_lt L W i ((j + 1) mod W)). pose proof (Nat.mod_upper_bound (j + 1) W).
+  unfold player_one_left_right_cell.
+  destruct (negb (ol =? or_)); destruct (moves i j) as [|[|[|[|k]]]]; try lia; cbn [by_move]; row_ok.
+Qed.
+
+Lemma prob_tile_break_cell_ok N p loose o lose i j :
+  o + n <= N -> lose < N -> i < L -> j < W -> cell_ok N (prob_tile_break_cell K W p loose o lose i j).
+Proof.
+  intros H1 H2 Hi Hj. cell_facts i j. unfold prob_tile_break_cell. destruct (_ =? 1); row_ok.
+Qed.
+
+Lemma prob_robot_down_break_cell_ok N p o win i j :
+  o + n <= N -> win < N -> i < L -> j < W -> cell_ok N (prob_robot_down_break_cell K L W p o win i j).
+Proof.
+  intros H1 H2 Hi Hj. cell_facts i j. unfold prob_robot_down_break_cell.
+  destruct (Nat.ltb_spec i (L - 1)); row_ok.
+Qed.
+
+Lemma prob_robot_left_break_cell_ok N p o i j :
+  o + n <= N -> i < L -> j < W -> cell_ok N (prob_robot_left_break_cell K W p o i j).
+Proof.
+  intros H1 Hi Hj. cell_facts i j. unfold prob_robot_left_break_cell.
+  destruct (Nat.eqb_spec j 0); row_ok.
+Qed.
+
+Lemma prob_robot_right_break_cell_ok N p o i j :
+  o + n <= N -> i < L -> j < W -> cell_ok N (prob_robot_right_break_cell K W p o i j).
+Proof.
+  intros H1 Hi Hj. cell_facts i j. unfold prob_robot_right_break_cell.
+  destruct (Nat.eqb_spec j (W - 1)); row_ok.
+Qed.
+
+Lemma player_one_down_left_right_cell_ok N moves od ol or_ i j :
+  od + n <= N -> ol + n <= N -> or_ + n <= N -> moves i j <= 3 -> i < L -> j < W ->
+  cell_ok N (player_one_down_left_right_cell K W moves od ol or_ i j).
+Proof.
+  intros H1 H2 H3 Hm Hi Hj. cell_facts i j. unfold player_one_down_left_right_cell.
+  destruct (moves i j) as [|[|[|[|k]]]]; try lia; cbn [by_move]; row_ok.
+Qed.
+
+Lemma prob_light_break_cell_ok N p ook obr i j :
+  ook + n <= N -> obr + n <= N -> i < L -> j < W -> cell_ok N (prob_light_break_cell K W p ook obr i j).
+Proof.
+  intros H1 H2 Hi Hj. cell_facts i j. unfold prob_light_break_cell. row_ok.
+Qed.
+
+End Cells.
+
+(** * The three games pass check_game and init_states *)
+Section GenValid.
+Context {T : Type} (K : ops T).
+Variables (L W : nat) (moves : nat -> nat -> nat) (rewards : nat -> nat -> T)
+          (loose : nat -> nat -> nat) (ptb prb plb : T).
+Hypothesis HL : 1 <= L.
+Hypothesis HW : 1 <= W.
+Hypothesis Hmoves : forall i j, i < L -> j < W -> moves i j <= 3.
+Notation n := (L * W).
+
+Lemma n_pos : 1 <= n.
+Proof. nia. Qed.
+
+Ltac cells_ok :=
+  repeat (apply Forall_cons; [intros i j Hi Hj|]); [..|apply Forall_nil].
+
+Lemma gen_A_rows_ok : rows_ok (n * 4 + 2) (g_trans (gen_A K L W moves rewards loose ptb)).
+Proof.
+  pose proof n_pos. rewrite gen_A_trans. unfold rows_ok. apply Forall_groups.
+  - cells_ok.
+    + apply player_two_cell_ok; try assumption; lia.
+    + apply player_one_down_cell_ok; try assumption; [lia|]. intros w E. injection E as <-. lia.
+    + apply player_one_left_right_cell_ok; try assumption; try lia. apply Hmoves; assumption.
+    + apply prob_tile_break_cell_ok; try assumption; lia.
+  - repeat constructor; try discriminate; cbn [dst pb]; lia.
+Qed.
+
+Lemma gen_B_rows_ok : rows_ok (n * 7 + 2) (g_trans (gen_B K L W moves rewards loose ptb prb)).
+Proof.
+  pose proof n_pos. rewrite gen_B_trans. unfold rows_ok. apply Forall_groups.
+  - cells_ok.
+    + apply player_two_cell_ok; try assumption; lia.
+    + apply player_one_down_cell_ok; try assumption; [lia|]. intros w E. discriminate.
+    + apply player_one_left_right_cell_ok; try assumption; try lia. apply Hmoves; assumption.
+    + apply prob_tile_break_cell_ok; try assumption; lia.
+    + apply prob_robot_down_break_cell_ok; try assumption; lia.
+    + apply prob_robot_left_break_cell_ok; try assumption; lia.
+    + apply prob_robot_right_break_cell_ok; try assumption; lia.
+  - repeat constructor; try discriminate; cbn [dst pb]; lia.
+Qed.
+
+Lemma gen_C_rows_ok : rows_ok (n * 10 + 2) (g_trans (gen_C K L W moves rewards loose ptb prb plb)).
+Proof.
+  pose proof n_pos. rewrite gen_C_trans. unfold rows_ok. apply Forall_groups.
+  - cells_ok.
+    + apply player_two_cell_ok; try assumption; lia.
+    + apply player_one_down_cell_ok; try assumption; [lia|]. intros w E. discriminate.
+    + apply player_one_left_right_cell_ok; try assumption; try lia. apply Hmoves; assumption.
+    + apply player_one_down_left_right_cell_ok; try assumption; try lia. apply Hmoves; assumption.
+    + apply prob_tile_break_cell_ok; try assumption; lia.
+    + apply prob_robot_down_break_cell_ok; try assumption; lia.
+    + apply prob_robot_left_break_cell_ok; try assumption; lia.
+    + apply prob_robot_right_break_cell_ok; try assumption; lia.
+    + apply prob_light_break_cell_ok; try assumption; lia.
+    + apply prob_light_break_cell_ok; try assumption; lia.
+  - repeat constructor; try discriminate; cbn [dst pb]; lia.
+Qed.
+
+End GenValid.
